@@ -30,6 +30,7 @@ func init() {
 		tables.WrapJoin(p, r)
 		tables.QualFormat(p, r)
 		tables.LocusSep(p, r)
+		conserve.PrefixFunc(p, r)
 		tables.C16(p, r) // the ORIGIN block is part of the record: its layout rules are necessary for "same residues"
 		conserve.MapInit(p, r)
 		traps.NoDump(p, r)
@@ -38,7 +39,7 @@ func init() {
 		tables.C16(p, r)
 		tables.ResidueClass(p, r)
 		tables.IndexExact(p, r)
-		traps.OriginLength(p, r, false)
+		traps.OriginLength(p, r, true)
 		globals.ShallowCache(p, r)
 	})
 	register("C02", true, func(p *core.Prog, r *core.Report, tier string) {
@@ -96,6 +97,7 @@ func init() {
 		conserve.QuantAll(p, r)
 		conserve.NotOfOr(p, r)
 		conserve.LessUnwrap(p, r)
+		conserve.LessQuant(p, r)
 		conserve.QualifierRules(p, r)
 		conserve.ValuesOnly(p, r)
 		conserve.SelectorRules(p, r)
@@ -104,6 +106,7 @@ func init() {
 	register("C04", true, func(p *core.Prog, r *core.Report, tier string) {
 		effects.PureOps(8, "Rotate", "(FeatureSlice).Insert", "*.Shift", "*.Normalize")(p, r)
 		conserve.C04(p, r)
+		conserve.NoEarlyExit(p, r, core.PkgGts, "Rotate", "last", "the residues are re-spliced and the feature table is rebuilt")
 		conserve.NoReorder(p, r, "Normalize", "Shift", "Expand")
 		conserve.LocationMethodRules(p, r, "Normalize", "Shift", "Expand")
 		conserve.NormaliseFirst(p, r, 3, core.PkgGts, core.PkgSeqio, core.PkgMain)
@@ -124,6 +127,7 @@ func init() {
 		conserve.LocateRC(p, r)
 		conserve.RegionDelegate(p, r)
 		conserve.MirrorArith(p, r)
+		conserve.ComplementWrap(p, r)
 		conserve.DelegateComplemented(p, r, "Reverse")
 		conserve.PartialCarry(p, r, "Reverse")
 		siblings.Reverse(p, r)
@@ -145,6 +149,7 @@ func init() {
 		conserve.NoEarlyExit(p, r, core.PkgGts, "Regions.Resize", "for", "the walks that carry the offsets across the segments")
 		conserve.LocWhole(p, r)
 		conserve.RegionDelegate(p, r)
+		conserve.RecordState(p, r, []string{"extract"}, 1)
 		r.Rule("DEDUP-EXACT", "a membership helper of package main (shape func([]T, T) bool) decides membership by reflect.DeepEqual or == of the element and the candidate, nothing coarser (gts extract drops repeated regions with it: two different regions must both be extracted)", 1)
 		conserve.DedupExact(p, r)
 	})
@@ -162,6 +167,8 @@ func init() {
 		conserve.PrintTotal(p, r)
 		conserve.ParseReject(p, r)
 		conserve.LocGrammar(p, r)
+		conserve.FlattenCases(p, r)
+		conserve.PeekAdvance(p, r)
 	})
 	register("C15", false, func(p *core.Prog, r *core.Report, tier string) {
 		conserve.C15(p, r)
@@ -172,6 +179,8 @@ func init() {
 		conserve.UniqueCuts(p, r)
 		conserve.FlushAll(p, r, multi, 6)
 		conserve.BackToFront(p, r, multi, 3)
+		conserve.RecordState(p, r, multi, 2)
+		conserve.RotateHead(p, r)
 		conserve.WalkPrefix(p, r) // modified locators on joined features go through Regions.Resize
 		conserve.LocatorFresh(p, r)
 		orders.SegmentOrder(p, r)
@@ -181,6 +190,7 @@ func init() {
 		traps.C07(p, r)
 		traps.CommitHonour(p, r)
 		traps.EOFMask(p, r)
+		conserve.PeekAdvance(p, r)
 		traps.NoDump(p, r)
 		traps.OriginLength(p, r, true)
 		conserve.MapInit(p, r)
@@ -196,6 +206,7 @@ func init() {
 		// only be told apart if different argument lists have different digests
 		cachekey.PayloadEncode(p, r)
 		cachekey.HashStrong(p, r)
+		cachekey.Key10(p, r) // the input is hashed from the offset it is read from: otherwise the root digest is that of another byte string
 	})
 	register("C14", false, func(p *core.Prog, r *core.Report, tier string) { cachekey.C14(p, r) })
 }
